@@ -60,7 +60,9 @@ func puRandom(rng *rand.Rand) puScen {
 		sc.Enable = false // the constructor refuses unwrapping without dropped bits
 	}
 	if rng.Intn(2) == 0 {
-		sc.BiasLevel = 24904 * sc.PulseSign
+		// the bias option is +-0.38 flux quanta (a sign, not a magnitude): scaled to the fraction width, so that it
+		// stays below half a quantum as in every real configuration (0.38 * 2^16 for Abaco)
+		sc.BiasLevel = (24904 >> uint(16-sc.Frac)) * sc.PulseSign
 	}
 	n := 20 + rng.Intn(250)
 	mode := rng.Intn(4)
